@@ -392,9 +392,73 @@ def fitter_case(case):
     return out, ("fitter", prior is not None)
 
 
+def refit_case(case):
+    """one curve object: a fit with k_old, then only k is changed (keyword
+    of fit_model, or a direct edit of the setting followed by fit_model):
+    the results are those of a fit with the new k"""
+    from nanite import model as nmodel
+    out = []
+    mk, k, kold, how = case["model"], case["k"], case["k_old"], case["how"]
+    p = POWER[mk]
+
+    def viol(clause, wit, detail):
+        out.append(V(PROP, clause, site="refit:" + how, witness=wit,
+                     detail=detail, case=case, kind="grid"))
+    E = {"hertz_para": 3000.0, "hertz_cone": 9000.0,
+         "hertz_pyr3s": 40000.0}[mk]
+    tr = synth.truth_params(mk, E=E, contact_point=CP_TRUE, baseline=4e-11)
+
+    def curve():
+        return synth.make_curve(mk, tr, n_app=160, n_ret=140, x_start=1.0e-6,
+                                depth=DEPTH, noise=0.0, seed=5)
+
+    def params(kk):
+        P = nmodel.models_available[mk].get_parameter_defaults()
+        P["contact_point"].set(value=CP_TRUE + 3e-8)
+        P["baseline"].set(value=2e-11)
+        P["E"].set(value=1.2 * E * kk ** (-p))
+        return P
+    ref = curve()
+    ref.fit_model(model_key=mk, params_initial=params(1.0), gcf_k=1.0,
+                  weight_cp=0)
+    c = curve()
+    c.fit_model(model_key=mk, params_initial=params(kold), gcf_k=kold,
+                weight_cp=0)
+    try:
+        if how == "keyword":
+            c.fit_model(gcf_k=k)
+        else:
+            c.fit_properties["gcf_k"] = k
+            c.fit_model()
+    except BaseException as e:
+        if isinstance(e, (KeyboardInterrupt, SystemExit, MemoryError)):
+            raise
+        viol("k-invariance", f"k={kold:.3g}->{k:.3g}:raises", repr(e))
+        return out, ("raises",)
+    f1, fk = ref.fit_properties, c.fit_properties
+    if not (f1.get("success") and fk.get("success")):
+        viol("k-invariance", f"k={kold:.3g}->{k:.3g}:success",
+             "unsuccessful")
+        return out, ("unsuccessful",)
+    q1, qk = f1["params_fitted"], fk["params_fitted"]
+    rE = qk["E"].value / (q1["E"].value * k ** (-p))
+    dcp = abs(qk["contact_point"].value - q1["contact_point"].value) / DEPTH
+    # (the second fit starts from the stored start values of the first:
+    # optimiser precision, not round-off)
+    if not abs(rE - 1) <= 1e-4:
+        viol("k-scaling", f"k={kold:.3g}->{k:.3g}", f"after changing only "
+             f"k on a fitted curve: E_k / (E_1 k^-{p}) = {rE!r}")
+    if not dcp <= 1e-5:
+        viol("k-invariance", f"k={kold:.3g}->{k:.3g}:contact_point",
+             f"|d cp|/depth = {dcp:.2e}")
+    return out, ("refit", how)
+
+
 def case_fn(case):
     if case.get("mode") == "guessed":
         return guessed_case(case)
+    if case.get("mode") == "refit":
+        return refit_case(case)
     if case.get("mode") == "fitter":
         return fitter_case(case)
     if case.get("mode") == "few-points":
@@ -561,6 +625,13 @@ def cases(tier):
                     continue
                 cs.append({"kind": "grid", "mode": "fitter", "model": mk,
                            "k": k, "prior_k": prior})
+    # only k changes on a curve that is already fitted
+    for mk in POWER:
+        for kold, k in ((1.0, 0.5), (0.5, 1.0), (1.0, 2.0), (0.5, 0.25),
+                        (2.0, 0.6)):
+            for how in ("keyword", "edit"):
+                cs.append({"kind": "grid", "mode": "refit", "model": mk,
+                           "k": k, "k_old": kold, "how": how})
     # fit requests whose range holds too few points
     for mk in POWER:
         for k in KS + [1.0]:
